@@ -1,8 +1,407 @@
 //! Verification hook (compiled only with `--cfg quinn_rs_quinn_verif`).
+//!
+//! Component `frames`: every frame encoder of `frame.rs` and the decoder `frame::Iter`.
+//!
+//! A frame is described by integers, `tag :: fields` (byte strings are length-prefixed):
+//! ```text
+//!   [0] PADDING   [1] PING   [30] HANDSHAKE_DONE   [31] IMMEDIATE_ACK
+//!   [2, delay, has_ecn, ect0, ect1, ce, n, s1, e1, .., sn, en]   ACK to encode (ranges half-open, ascending)
+//!   [2, largest, delay, has_ecn, ect0, ect1, ce, alen, additional.., nr, lo1, hi1, ..]   ACK as decoded
+//!        (additional = raw block bytes, then the ranges produced by `Ack::iter`, inclusive)
+//!   [4, id, code, final]  RESET_STREAM     [5, id, code] STOP_SENDING
+//!   [6, off, len, data..] CRYPTO           [7, len, token..] NEW_TOKEN
+//!   [8, id, off, fin, len, data..] STREAM
+//!   [16, v] MAX_DATA  [17, id, off] MAX_STREAM_DATA  [18, dir, count] MAX_STREAMS (dir 0 = bidi, 1 = uni)
+//!   [20, off] DATA_BLOCKED  [21, id, off] STREAM_DATA_BLOCKED  [22, dir, limit] STREAMS_BLOCKED
+//!   [24, seq, retire_prior_to, cidlen, cid.., token x16] NEW_CONNECTION_ID
+//!   [25, seq] RETIRE_CONNECTION_ID   [26, v] PATH_CHALLENGE   [27, v] PATH_RESPONSE
+//!   [28, code, frame_type (0 = None), len, reason..] CONNECTION_CLOSE
+//!   [29, code, len, reason..] APPLICATION_CLOSE
+//!   [48, len, data..] DATAGRAM      [175, seq, threshold, max_ack_delay, reordering] ACK_FREQUENCY
+//! ```
+//! ops:
+//! ```text
+//!   [0, withlen, max_len, desc..]  encode the frame (`withlen`: STREAM/DATAGRAM length flag, `max_len`:
+//!                                  argument of `Close::encode`)                -> [0, bytes..] | [-1] bad description
+//!   [1, bytes..]                   `Iter::new` + collect -> [1] (empty payload) | 0 :: items, an item being a decoded
+//!                                  frame description or, for `Err(InvalidFrame)`, [-1, reason, last_ty | -1]
+//!                                  (reason 1 = unexpected end, 2 = invalid frame ID, 3 = malformed)
+//!   [2, withlen, max_len, desc..]  encode, then decode the produced bytes with `Iter` -> as op 1
+//! ```
+//! Frames that quinn encodes inline in `connection/mod.rs` / `streams/state.rs` (PING, MAX_*, *_BLOCKED,
+//! RETIRE_CONNECTION_ID, PATH_*, HANDSHAKE_DONE, IMMEDIATE_ACK, PADDING) have no encoder function; the hook
+//! writes them with the same two calls (`write(FrameType::X)`, `write`/`write_var(field)`).
 #![allow(missing_docs, dead_code, unused_imports, unreachable_pub, clippy::all)]
 use super::{Ops, Outs};
+use crate::{
+    Dir, MAX_CID_SIZE, RESET_TOKEN_SIZE, StreamId, TransportErrorCode, VarInt,
+    coding::{BufExt, BufMutExt, Codec},
+    frame::{self, Frame, FrameType},
+    range_set::ArrayRangeSet,
+    shared::ConnectionId,
+};
+use bytes::{Buf, BufMut, Bytes};
 
-/// Interpret `ops` for component `comp`; `None` if `comp` is not served by this module.
-pub(crate) fn run(_comp: &str, _ops: &Ops) -> Option<Outs> {
-    None
+struct Rd<'a> {
+    v: &'a [i128],
+    p: usize,
+}
+
+impl<'a> Rd<'a> {
+    fn int(&mut self) -> Option<i128> {
+        let x = *self.v.get(self.p)?;
+        self.p += 1;
+        Some(x)
+    }
+    fn u64(&mut self) -> Option<u64> {
+        self.int().map(|x| x as u64)
+    }
+    fn bytes(&mut self, n: usize) -> Option<Vec<u8>> {
+        if self.v.len() - self.p < n {
+            return None;
+        }
+        let b = self.v[self.p..self.p + n].iter().map(|x| *x as u8).collect();
+        self.p += n;
+        Some(b)
+    }
+    fn lbytes(&mut self) -> Option<Vec<u8>> {
+        let n = self.int()?;
+        if n < 0 {
+            return None;
+        }
+        self.bytes(n as usize)
+    }
+    fn done(&self) -> bool {
+        self.p == self.v.len()
+    }
+}
+
+fn vi(x: u64) -> VarInt {
+    VarInt::from_u64(x).unwrap()
+}
+
+fn frame_type(x: u64) -> FrameType {
+    let mut b = Vec::new();
+    vi(x).encode(&mut b);
+    FrameType::decode(&mut &b[..]).unwrap()
+}
+
+fn frame_type_value(t: FrameType) -> u64 {
+    let mut b = Vec::new();
+    t.encode(&mut b);
+    VarInt::decode(&mut &b[..]).unwrap().into_inner()
+}
+
+fn error_code(x: u64) -> TransportErrorCode {
+    let mut b = Vec::new();
+    vi(x).encode(&mut b);
+    TransportErrorCode::decode(&mut &b[..]).unwrap()
+}
+
+fn dir_of(x: i128) -> Dir {
+    if x == 0 { Dir::Bi } else { Dir::Uni }
+}
+
+/// Encode the described frame with the real encoders; `None` = malformed description.
+fn encode(withlen: bool, max_len: usize, d: &[i128]) -> Option<Vec<u8>> {
+    let mut r = Rd { v: d, p: 0 };
+    let mut buf: Vec<u8> = Vec::new();
+    let tag = r.int()?;
+    match tag {
+        0 => buf.write(FrameType::PADDING),
+        1 => buf.write(FrameType::PING),
+        30 => buf.write(FrameType::HANDSHAKE_DONE),
+        31 => buf.write(FrameType::IMMEDIATE_ACK),
+        2 => {
+            let delay = r.u64()?;
+            let has_ecn = r.int()? != 0;
+            let ecn = frame::EcnCounts {
+                ect0: r.u64()?,
+                ect1: r.u64()?,
+                ce: r.u64()?,
+            };
+            let n = r.int()?;
+            let mut ranges = ArrayRangeSet::new();
+            let mut given = Vec::new();
+            for _ in 0..n {
+                let s = r.u64()?;
+                let e = r.u64()?;
+                given.push(s..e);
+                ranges.insert(s..e);
+            }
+            // the description must already be the normal form held by the set
+            if ranges.iter().collect::<Vec<_>>() != given {
+                return None;
+            }
+            frame::Ack::encode(delay, &ranges, if has_ecn { Some(&ecn) } else { None }, &mut buf);
+        }
+        4 => frame::ResetStream {
+            id: StreamId(r.u64()?),
+            error_code: vi(r.u64()?),
+            final_offset: vi(r.u64()?),
+        }
+        .encode(&mut buf),
+        5 => frame::StopSending {
+            id: StreamId(r.u64()?),
+            error_code: vi(r.u64()?),
+        }
+        .encode(&mut buf),
+        6 => frame::Crypto {
+            offset: r.u64()?,
+            data: r.lbytes()?.into(),
+        }
+        .encode(&mut buf),
+        7 => frame::NewToken {
+            token: r.lbytes()?.into(),
+        }
+        .encode(&mut buf),
+        8 => {
+            // as `StreamsState::write_stream_frames`: meta, then the payload bytes
+            let id = StreamId(r.u64()?);
+            let off = r.u64()?;
+            let fin = r.int()? != 0;
+            let data = r.lbytes()?;
+            let meta = frame::StreamMeta {
+                id,
+                offsets: off..off + data.len() as u64,
+                fin,
+            };
+            meta.encode(withlen, &mut buf);
+            buf.put_slice(&data);
+        }
+        16 => {
+            buf.write(FrameType::MAX_DATA);
+            buf.write(vi(r.u64()?));
+        }
+        17 => {
+            buf.write(FrameType::MAX_STREAM_DATA);
+            buf.write(StreamId(r.u64()?));
+            buf.write_var(r.u64()?);
+        }
+        18 => {
+            buf.write(match dir_of(r.int()?) {
+                Dir::Uni => FrameType::MAX_STREAMS_UNI,
+                Dir::Bi => FrameType::MAX_STREAMS_BIDI,
+            });
+            buf.write_var(r.u64()?);
+        }
+        20 => {
+            buf.write(FrameType::DATA_BLOCKED);
+            buf.write_var(r.u64()?);
+        }
+        21 => {
+            buf.write(FrameType::STREAM_DATA_BLOCKED);
+            buf.write(StreamId(r.u64()?));
+            buf.write_var(r.u64()?);
+        }
+        22 => {
+            buf.write(match dir_of(r.int()?) {
+                Dir::Uni => FrameType::STREAMS_BLOCKED_UNI,
+                Dir::Bi => FrameType::STREAMS_BLOCKED_BIDI,
+            });
+            buf.write_var(r.u64()?);
+        }
+        24 => {
+            let sequence = r.u64()?;
+            let retire_prior_to = r.u64()?;
+            let cid = r.lbytes()?;
+            let tok: [u8; RESET_TOKEN_SIZE] = r.bytes(RESET_TOKEN_SIZE)?.try_into().ok()?;
+            frame::NewConnectionId {
+                sequence,
+                retire_prior_to,
+                id: ConnectionId::new(&cid),
+                reset_token: tok.into(),
+            }
+            .encode(&mut buf);
+        }
+        25 => {
+            buf.write(FrameType::RETIRE_CONNECTION_ID);
+            buf.write_var(r.u64()?);
+        }
+        26 => {
+            buf.write(FrameType::PATH_CHALLENGE);
+            buf.write(r.u64()?);
+        }
+        27 => {
+            buf.write(FrameType::PATH_RESPONSE);
+            buf.write(r.u64()?);
+        }
+        28 => {
+            let code = error_code(r.u64()?);
+            let ft = r.u64()?;
+            let reason = r.lbytes()?;
+            frame::Close::Connection(frame::ConnectionClose {
+                error_code: code,
+                frame_type: if ft == 0 { None } else { Some(frame_type(ft)) },
+                reason: reason.into(),
+            })
+            .encode(&mut buf, max_len);
+        }
+        29 => {
+            let code = vi(r.u64()?);
+            let reason = r.lbytes()?;
+            frame::Close::Application(frame::ApplicationClose {
+                error_code: code,
+                reason: reason.into(),
+            })
+            .encode(&mut buf, max_len);
+        }
+        48 => frame::Datagram {
+            data: r.lbytes()?.into(),
+        }
+        .encode(withlen, &mut buf),
+        175 => frame::AckFrequency {
+            sequence: vi(r.u64()?),
+            ack_eliciting_threshold: vi(r.u64()?),
+            request_max_ack_delay: vi(r.u64()?),
+            reordering_threshold: vi(r.u64()?),
+        }
+        .encode(&mut buf),
+        _ => return None,
+    }
+    if !r.done() {
+        return None;
+    }
+    Some(buf)
+}
+
+fn push_lbytes(o: &mut Vec<i128>, b: &[u8]) {
+    o.push(b.len() as i128);
+    o.extend(b.iter().map(|x| *x as i128));
+}
+
+fn render(f: &Frame, o: &mut Vec<i128>) {
+    match f {
+        Frame::Padding => o.push(0),
+        Frame::Ping => o.push(1),
+        Frame::Ack(a) => {
+            o.extend([2, a.largest as i128, a.delay as i128]);
+            match a.ecn {
+                Some(e) => o.extend([1, e.ect0 as i128, e.ect1 as i128, e.ce as i128]),
+                None => o.extend([0, 0, 0, 0]),
+            }
+            push_lbytes(o, &a.additional);
+            let rs: Vec<_> = a.iter().collect();
+            o.push(rs.len() as i128);
+            for r in rs {
+                o.push(*r.start() as i128);
+                o.push(*r.end() as i128);
+            }
+        }
+        Frame::ResetStream(x) => o.extend([
+            4,
+            x.id.0 as i128,
+            x.error_code.into_inner() as i128,
+            x.final_offset.into_inner() as i128,
+        ]),
+        Frame::StopSending(x) => o.extend([5, x.id.0 as i128, x.error_code.into_inner() as i128]),
+        Frame::Crypto(x) => {
+            o.extend([6, x.offset as i128]);
+            push_lbytes(o, &x.data);
+        }
+        Frame::NewToken(x) => {
+            o.push(7);
+            push_lbytes(o, &x.token);
+        }
+        Frame::Stream(x) => {
+            o.extend([8, x.id.0 as i128, x.offset as i128, x.fin as i128]);
+            push_lbytes(o, &x.data);
+        }
+        Frame::MaxData(v) => o.extend([16, v.into_inner() as i128]),
+        Frame::MaxStreamData { id, offset } => o.extend([17, id.0 as i128, *offset as i128]),
+        Frame::MaxStreams { dir, count } => o.extend([18, *dir as i128, *count as i128]),
+        Frame::DataBlocked { offset } => o.extend([20, *offset as i128]),
+        Frame::StreamDataBlocked { id, offset } => o.extend([21, id.0 as i128, *offset as i128]),
+        Frame::StreamsBlocked { dir, limit } => o.extend([22, *dir as i128, *limit as i128]),
+        Frame::NewConnectionId(x) => {
+            o.extend([24, x.sequence as i128, x.retire_prior_to as i128]);
+            push_lbytes(o, &x.id);
+            o.extend(x.reset_token.iter().map(|b| *b as i128));
+        }
+        Frame::RetireConnectionId { sequence } => o.extend([25, *sequence as i128]),
+        Frame::PathChallenge(v) => o.extend([26, *v as i128]),
+        Frame::PathResponse(v) => o.extend([27, *v as i128]),
+        Frame::Close(frame::Close::Connection(c)) => {
+            o.extend([
+                28,
+                u64::from(c.error_code) as i128,
+                c.frame_type.map_or(0, |t| frame_type_value(t) as i128),
+            ]);
+            push_lbytes(o, &c.reason);
+        }
+        Frame::Close(frame::Close::Application(c)) => {
+            o.extend([29, c.error_code.into_inner() as i128]);
+            push_lbytes(o, &c.reason);
+        }
+        Frame::Datagram(x) => {
+            o.push(48);
+            push_lbytes(o, &x.data);
+        }
+        Frame::AckFrequency(x) => o.extend([
+            175,
+            x.sequence.into_inner() as i128,
+            x.ack_eliciting_threshold.into_inner() as i128,
+            x.request_max_ack_delay.into_inner() as i128,
+            x.reordering_threshold.into_inner() as i128,
+        ]),
+        Frame::ImmediateAck => o.push(31),
+        Frame::HandshakeDone => o.push(30),
+    }
+}
+
+fn decode(b: Vec<u8>) -> Vec<i128> {
+    let iter = match frame::Iter::new(Bytes::from(b)) {
+        Ok(i) => i,
+        Err(_) => return vec![1],
+    };
+    let mut o = vec![0];
+    let mut steps = 0usize;
+    for item in iter {
+        steps += 1;
+        if steps > 1_000_000 {
+            o.push(-2);
+            break;
+        }
+        match item {
+            Ok(f) => render(&f, &mut o),
+            Err(e) => {
+                let reason = match e.reason {
+                    "unexpected end" => 1,
+                    "invalid frame ID" => 2,
+                    "malformed" => 3,
+                    _ => 9,
+                };
+                o.extend([-1, reason, e.ty.map_or(-1, |t| frame_type_value(t) as i128)]);
+            }
+        }
+    }
+    o
+}
+
+fn frames(ops: &Ops) -> Outs {
+    ops.iter()
+        .map(|op| match op[0] {
+            0 if op.len() >= 3 => match encode(op[1] != 0, op[2] as usize, &op[3..]) {
+                Some(b) => {
+                    let mut o = vec![0];
+                    o.extend(b.iter().map(|x| *x as i128));
+                    o
+                }
+                None => vec![-1],
+            },
+            1 => decode(op[1..].iter().map(|x| *x as u8).collect()),
+            2 if op.len() >= 3 => match encode(op[1] != 0, op[2] as usize, &op[3..]) {
+                Some(b) => decode(b),
+                None => vec![-1],
+            },
+            _ => vec![-1],
+        })
+        .collect()
+}
+
+pub(crate) fn run(comp: &str, ops: &Ops) -> Option<Outs> {
+    match comp {
+        "frames" => Some(frames(ops)),
+        _ => None,
+    }
 }
